@@ -1,6 +1,7 @@
-(** C13, part 6a: per-step preservation of [loadable] (see Proofs/MigrateLoadable.v). *)
+(** C13, part 6a: per-step preservation of [loadable], steps 2, 5, 8, 9
+    (see Proofs/MigrateLoadable.v; lemmas and tactics of Proofs/MigrateLoadTools.v). *)
 From Coq Require Import List ZArith String Ascii Bool Lia Arith.
-From AGH Require Import Model.Migrate Model.MigrateLoad Proofs.Migrate Proofs.MigrateFrame Proofs.MigrateLoadable.
+From AGH Require Import Model.Migrate Model.MigrateLoad Proofs.Migrate Proofs.MigrateLoadable Proofs.MigrateLoadTools.
 Import ListNotations.
 Local Open Scope string_scope.
 Local Open Scope list_scope.
@@ -9,15 +10,51 @@ Section WithOracles.
 Variable O : oracles.
 
 Lemma keep2 : step_keeps L 1 (step2).
-Proof. unfold step2. pres_step. Qed.
+Proof.
+  intros m m' Hm E. open_schema Hm. open_goal. unfold step2 in E. stamp_in Hm E m0.
+  unfold move_in in E.
+  destruct (field_val TAny m0 "coredns") as [|v|] eqn:F; try discriminate E; injection E as <-; [fin Hm|].
+  apply fv_any_ok in F. pose proof (fok_look _ _ _ _ _ Hm F eq_refl) as Hv.
+  pose proof (fok_del_same _ _ "coredns" (fok_set _ _ "dns" _ _ Hm Hv)) as H1.
+  fin H1.
+Qed.
 
 Lemma keep5 : step_keeps L 4 (step5 O).
-Proof. unfold step5. pres_step. Qed.
+Proof.
+  intros m m' Hm E. open_schema Hm. open_goal. unfold step5 in E. stamp_in Hm E m0.
+  destruct (move_val TStr m0 [] "auth_name" "name") as [[m1 user]|] eqn:Mv; [|discriminate E].
+  let e := goal_arr_elem "users" in
+  lazymatch e with SObj _ ?fu => pose proof (fok_nil fu) as Hu0 end.
+  do_moves Mv Hm Hu0 Hs Hd.
+  destruct (field_val TStr m1 "auth_pass") as [|p|] eqn:F; try discriminate E; [injection E as <-; fin Hs|].
+  destruct (o_bcrypt O (zstr p)) as [h|]; [|discriminate E]. injection E as <-.
+  pose proof (fok_upd_same _ _ "password" (VStr h) Hd eq_refl) as Hu.
+  pose proof (fok_del_same _ _ "auth_pass" Hs) as H1.
+  let s := goal_shape "users" in refine (fin_set _ _ "users" s _ _ H1 _ _); [|vmr].
+  rewrite conforms_arr. cbn [forallb]. rewrite conforms_obj, Hu. reflexivity.
+Qed.
 
 Lemma keep8 : step_keeps L 7 (step8).
-Proof. unfold step8. pres_step. Qed.
+Proof.
+  intros m m' Hm E. open_schema Hm. open_goal. unfold step8 in E. stamp_in Hm E m0.
+  let fo := goal_obj_fields "dns" in
+  refine (with_obj_fok _ _ _ _ _ _ _ fo _ E Hm eq_refl _ _); [|vmr].
+  clear. intros o o' Ho Ef.
+  destruct (field_val TStr o "bind_host") as [|b|] eqn:F; try discriminate Ef; injection Ef as <-; [fin Ho|].
+  destruct (fv_str_ok _ _ _ F) as [s ->].
+  refine (fin_set _ _ "bind_hosts" (SArr SStr) _ _ (fok_del_same _ _ "bind_host" Ho) _ _); [reflexivity|vmr].
+Qed.
 
 Lemma keep9 : step_keeps L 8 (step9).
-Proof. unfold step9. pres_step. Qed.
+Proof.
+  intros m m' Hm E. open_schema Hm. open_goal. unfold step9 in E. stamp_in Hm E m0.
+  let fo := goal_obj_fields "dns" in
+  refine (with_obj_fok _ _ _ _ _ _ _ fo _ E Hm eq_refl _ _); [|vmr].
+  clear. intros o o' Ho Ef. unfold move_in in Ef.
+  destruct (field_val TStr o "autohost_tld") as [|v|] eqn:F; try discriminate Ef; injection Ef as <-; [fin Ho|].
+  destruct (fv_str_ok _ _ _ F) as [s ->].
+  pose proof (fok_del_same _ _ "autohost_tld" (fok_set _ _ "local_domain_name" SStr (VStr s) Ho eq_refl)) as H1.
+  fin H1.
+Qed.
 
 End WithOracles.
